@@ -1,6 +1,7 @@
 import Replicon.Proofs.Events
 import Replicon.Proofs.Client
 import Replicon.Proofs.Server
+import Replicon.Proofs.Joint
 /-
 C04 — Server events never outrun the replication they depend on.
 
@@ -12,13 +13,25 @@ Model: `Model/Events.lean` — `sendEvent` (`BufferedServerEvents::send_all` +
 update tick exactly when an update message goes out) and `Model/Client.lean` (`applyUpdate` sets
 `ServerUpdateTick` to the message's tick).
 
-What is proved: the three links of the argument, each for all inputs, and their composition
-for one client over an arbitrary sequence of update messages (`C04_applied_before_delivery`).
-What is NOT proved as one theorem: the composition over the joint server/client/transport state
-machine with several clients (`C04_end_to_end_partial` states exactly which part is proved);
-that part is covered by the C04 oracle on the implementation's own observations (stamp on the
-wire ≤ `ServerUpdateTick` at the moment of delivery; resolved references equal the entity map)
-and by the lock-step comparison of `SrvEv.frame` / `receive` with the implementation.
+What is proved:
+* for ALL histories of server operations and frames (`Model/Joint.lean`: world changes,
+  visibility, mappings, connects, authorizations, disconnects, stops and starts, acknowledgements,
+  event emissions, frames with or without a tick; any number of clients): every dependent event
+  leaves the server stamped with the tick of the last update message sent to the receiving
+  client in its session, and those ticks strictly increase (`C04_history`, by an inductive
+  invariant over the operation list);
+* the client gate and, for any strictly increasing positive tick sequence, that passing the gate
+  means every update message sent before the event has been applied
+  (`C04_gate`, `C04_ticks_compose`, `C04_applied_before_delivery`);
+* reference resolution.
+What remains an assumption: the ordered reliable channel hands the client the update messages
+in sending order (so what it has applied is a prefix), and `NoTickZeroUpdate` — no update
+message carries tick 0, the client's initial `ServerUpdateTick` (known finding F20: with a
+replication run at tick 0 the statement is false; the implementation replays it).  These two
+are what `C04_end_to_end_partial` lacks for the unconditional statement.  The oracle on the
+implementation checks the same two facts on real traces: the stamp on the wire equals the tick of
+the last update message sent to that client, and at delivery the client has received at least as
+many update messages as had been sent before the event.
 Ticks are natural numbers here: the wrap-around of `RepliconTick` inside the queue's `BTreeMap`
 is not modelled (a session would have to last 2^31 ticks).
 -/
@@ -111,8 +124,73 @@ theorem C04_refs_refused (map : List (Nat × Nat)) (refs : List Nat) (r : Nat) (
     (h : map.lookup r = none) : resolveRefs map refs = none :=
   resolveRefs_none map refs r hr h
 
-/-- The part of the end-to-end statement that is a theorem: the conjunction of the links.
-Missing for the full statement: the joint state machine over several clients and transports. -/
+/-! ### all histories -/
+
+open Replicon.Joint in
+/-- For every history of operations from the initial state, every frame's dependent events are
+stamped with the tick of the last update message sent to the receiving client in its session
+(`Joint.StampsOk`), in a state where those ticks strictly increase, never exceed the server
+tick, and equal every connected client's `update_tick` (`Joint.Inv`). -/
+theorem C04_history (ops : List Joint.Op) :
+    Joint.Inv (Joint.run {} ops).1 ∧
+    ∀ fr ∈ (Joint.run {} ops).2, ∃ st', Joint.Inv st' ∧ Joint.StampsOk st' fr.2 :=
+  Joint.inv_run ops {} Joint.inv_init
+
+/-- Client side, on ticks: `l` are the ticks of the update messages sent to the client in its
+session (strictly increasing, none 0); the event was stamped when `j` of them had been sent, the
+client has applied `k` of them.  If the stamp passes the gate, `j ≤ k`: everything sent before
+the event has been applied. -/
+theorem C04_ticks_compose (l : List Nat) (hinc : l.Pairwise (· < ·)) (hpos : ∀ t ∈ l, 0 < t)
+    (j k : Nat) (hj : j ≤ l.length)
+    (hgate : Joint.lastOr0 (l.take j) ≤ Joint.lastOr0 (l.take k)) : j ≤ k := by
+  by_cases hjk : j ≤ k
+  · exact hjk
+  · exfalso
+    have hkj : k < j := by omega
+    have hjpos : 0 < j := by omega
+    -- the stamp is `l[j-1]`
+    have hlast : Joint.lastOr0 (l.take j) = l[j - 1]'(by omega) := by
+      unfold Joint.lastOr0
+      rw [List.getLast?_take]
+      have : j ≠ 0 := by omega
+      simp only [this, if_false]
+      rw [List.getElem?_eq_getElem (by omega)]
+      simp
+    by_cases hk0 : k = 0
+    · subst hk0
+      have h0 : Joint.lastOr0 (l.take 0) = 0 := by simp [Joint.lastOr0]
+      rw [h0, hlast] at hgate
+      have := hpos (l[j - 1]'(by omega)) (List.getElem_mem _)
+      omega
+    · have hklast : Joint.lastOr0 (l.take k) = l[k - 1]'(by omega) := by
+        unfold Joint.lastOr0
+        rw [List.getLast?_take]
+        simp only [hk0, if_false]
+        rw [List.getElem?_eq_getElem (by omega)]
+        simp
+      rw [hlast, hklast] at hgate
+      have := List.pairwise_iff_getElem.mp hinc (k - 1) (j - 1) (by omega) (by omega) (by omega)
+      omega
+
+/-- Non-vacuity: a history with two clients — a spawn, a tick with an event, a late joiner, a
+second tick — run on the joint model: the late joiner gets only the second event, stamped with
+the tick of its own first update message (2); for client 0 the second tick brought only a
+mutation (no update message), so its second event still carries stamp 1. -/
+example :
+    let ops : List Joint.Op :=
+      [.start, .connect 0 true, .spawn 5 true [(0, 7)],
+       .emit { ev := { id := 100, chan := 2, mode := .broadcast }, independent := false },
+       .frame true 10 (fun _ => []),
+       .connect 1 true, .insert 5 0 8,
+       .emit { ev := { id := 101, chan := 2, mode := .broadcast }, independent := false },
+       .frame true 10 (fun _ => [])]
+    ((Joint.run { srv := { rates := [(0, .every)] } } ops).2.map fun fr => fr.2.map fun o => (o.client, o.id, o.stamp)) =
+      [[], [], [], [], [(0, 100, some 1)], [], [], [], [(1, 101, some 2), (0, 101, some 1)]] := by
+  decide
+
+/-- The part of the end-to-end statement that is a theorem for single steps: the conjunction of
+the links (`C04_history` lifts the server link to all histories).  Missing for the unconditional
+statement: the transport's in-order delivery and `NoTickZeroUpdate` (F20). -/
 theorem C04_end_to_end_partial :
     (∀ peers excl e o, o ∈ sendEvent peers excl e → ∃ p ∈ peers, p.id = o.client ∧ o.stamp = some p.updateTick) ∧
     (∀ u q inc, ∀ x ∈ (receive u q inc).1, x.1 ≤ u) :=
